@@ -1,7 +1,7 @@
 /-
   Line protocol of level L-lazy: the harness (`harness/src/lazy.rs`) runs the same lines on the real
   `Lazy` with counting thunks.  One observation per line:
-    new c V | new app F H | new app2 F H1 H2 | clone H   ->  h=<new handle>
+    new c V | new v V | new app F H | new app2 F H1 H2 | clone H   ->  h=<new handle>
     force H                                             ->  v=<value> runs=<executions of every cell's thunk>
     drop H                                              ->  ok
   A line the real harness refuses (dead or unknown handle, unparsable number) is `bad-op` here too;
@@ -40,6 +40,10 @@ def step (s : State) (line : String) : State × String :=
   | ["new", "c", v] =>
     match v.toInt? with
     | some v => alloc s (.const v)
+    | none => (s, "bad-op")
+  | ["new", "v", v] =>
+    match v.toInt? with
+    | some v => alloc s (.val v)
     | none => (s, "bad-op")
   | ["new", "app", fid, h] =>
     match fid.toNat?, h.toNat? with
